@@ -21,7 +21,10 @@ type Material struct {
 	Keys            []*ecdsa.PrivateKey
 }
 
-// NewMaterial creates n self-signed ECDSA P-256 certificates "gen-1".."gen-n".
+// NewMaterial creates n self-signed ECDSA P-256 certificates "gen-1".."gen-n". gen-1 (the pair the proxy starts with)
+// is valid for a century; the later generations are a pair that has expired (even ones) and a pair that is not valid
+// yet (odd ones): both are matching pairs like any other - what the proxy presents is what is on disk, whether a
+// client will like its dates is not the proxy's call.
 func NewMaterial(n int) *Material {
 	m := &Material{CertPEM: make([][]byte, n+1), KeyPEM: make([][]byte, n+1), CertDER: make([][]byte, n+1), Keys: make([]*ecdsa.PrivateKey, n+1)}
 	for g := 1; g <= n; g++ {
@@ -32,8 +35,8 @@ func NewMaterial(n int) *Material {
 		tmpl := &x509.Certificate{
 			SerialNumber: big.NewInt(int64(g)),
 			Subject:      pkix.Name{CommonName: fmt.Sprintf("gen-%d", g)},
-			NotBefore:    time.Date(1999, 1, 1, 0, 0, 0, 0, time.UTC),
-			NotAfter:     time.Date(2100, 1, 1, 0, 0, 0, 0, time.UTC),
+			NotBefore:    notBefore(g),
+			NotAfter:     notAfter(g),
 			KeyUsage:     x509.KeyUsageDigitalSignature | x509.KeyUsageKeyEncipherment,
 			ExtKeyUsage:  []x509.ExtKeyUsage{x509.ExtKeyUsageServerAuth},
 			DNSNames:     []string{"localhost"},
@@ -52,6 +55,26 @@ func NewMaterial(n int) *Material {
 		m.KeyPEM[g] = pem.EncodeToMemory(&pem.Block{Type: "EC PRIVATE KEY", Bytes: kb})
 	}
 	return m
+}
+
+func notBefore(g int) time.Time {
+	switch {
+	case g == 1:
+		return time.Date(1999, 1, 1, 0, 0, 0, 0, time.UTC)
+	case g%2 == 0:
+		return time.Date(1990, 1, 1, 0, 0, 0, 0, time.UTC)
+	}
+	return time.Date(2200, 1, 1, 0, 0, 0, 0, time.UTC)
+}
+
+func notAfter(g int) time.Time {
+	switch {
+	case g == 1:
+		return time.Date(2100, 1, 1, 0, 0, 0, 0, time.UTC)
+	case g%2 == 0:
+		return time.Date(1995, 1, 1, 0, 0, 0, 0, time.UTC)
+	}
+	return time.Date(2300, 1, 1, 0, 0, 0, 0, time.UTC)
 }
 
 // Bytes is the file content for a model content.
